@@ -42,6 +42,53 @@ theorem c19_dot_iff (base target : List Nat) (ht : ordinary target) :
     makeRel base target = [46] ↔ comps target = (comps base).dropLast :=
   dot_iff_core base target ht
 
+/-- **The result climbs exactly to the deepest common ancestor and no further**: when the target is not
+the base directory itself, the returned path consists of one `..` per base-directory component below
+the longest common prefix, followed by precisely the target's components below that prefix - no
+component of the shared prefix is ever left and re-entered, and nothing else is emitted.  (No
+ordinariness hypothesis: this is the shape of the output for every pair of paths.) -/
+theorem c19_shape (base target : List Nat) (hne : comps target ≠ (comps base).dropLast) :
+    comps (makeRel base target) =
+      List.replicate ((comps base).dropLast.length - lcp (comps target) (comps base).dropLast) DOTDOT
+        ++ (comps target).drop (lcp (comps target) (comps base).dropLast) := by
+  rw [makeRel_unfold, lcp_eq_leadingMatches]
+  simp only
+  have hgood := goodComps_drop target (leadingMatches (comps target) (comps base).dropLast)
+  split
+  · next h => exact absurd ((rel_nil_iff _ _ hgood).mp h) hne
+  · rw [comps_dotdots, comps_joinSlash _ hgood]
+
+/-- the result is never the empty string -/
+theorem c19_nonempty (base target : List Nat) : makeRel base target ≠ [] := by
+  rw [makeRel_unfold]
+  simp only
+  split
+  · simp
+  · next h => exact h
+
+/-- a target inside the base directory (the base directory's components are a proper prefix of the
+target's) is reached without any `..`: the result's components are the remaining target components -/
+theorem c19_descend (base target : List Nat) (rest : List (List Nat)) (hr : rest ≠ [])
+    (h : comps target = (comps base).dropLast ++ rest) :
+    comps (makeRel base target) = rest := by
+  have hne : comps target ≠ (comps base).dropLast := by
+    rw [h]; intro e
+    have := congrArg List.length e
+    simp only [List.length_append] at this
+    exact hr (List.eq_nil_of_length_eq_zero (by omega))
+  have hk : lcp (comps target) (comps base).dropLast = (comps base).dropLast.length := by
+    rw [lcp_eq_leadingMatches, h]
+    generalize (comps base).dropLast = b
+    induction b with
+    | nil => cases rest <;> simp [leadingMatches]
+    | cons x xs ih => simp [leadingMatches, ih]; omega
+  rw [c19_shape base target hne, hk, h]
+  simp
+
+-- concrete check of the shape: "/a/b/c.js" -> "/a/x/y.map" climbs once ("b"), then descends "x/y.map"
+example : comps (makeRel [47, 97, 47, 98, 47, 99, 46, 106, 115] [47, 97, 47, 120, 47, 121, 46, 109, 97, 112])
+    = [DOTDOT, [120], [121, 46, 109, 97, 112]] := by decide
+
 -- non-vacuity: "/foo/a.js" -> "/foo/bar/baz.map"
 example : ordinary [47, 102, 111, 111, 47, 98, 97, 114, 47, 98, 97, 122, 46, 109, 97, 112] := by
   simp [ordinary, comps, splitSep, isSep, DOT, DOTDOT]
